@@ -4,7 +4,10 @@ Monitor (E4, needs real root): real servers configured with user / group / initg
 spellings; for every worker of every generation (initial, respawned after kill -9, after HUP, after
 TTIN, workers of a USR2-upgraded master) the harness reads /proc/<pid>/status (Uid, Gid, Groups) and
 asks the application for the ids it saw at import time and at request time; the master's own ids,
-the heartbeat (no WORKER TIMEOUT) and reachability through a unix socket are checked too.
+the heartbeat (no WORKER TIMEOUT) and reachability through a unix socket are checked too.  Every history ends with the old
+master retired, so that the upgraded side alone answers and reports its ids from inside.  Two directed histories: a worker whose
+initgroups() is refused (EPERM) must not run application code with other groups than the configured user's, and a master that
+found ./gunicorn.conf.py by itself (no -c), was moved to another directory by a reload introducing `chdir`, and is then upgraded.
 """
 import grp
 import json
@@ -19,7 +22,8 @@ from vlib.common import Run, rng_for
 PROP = "C20"
 RULE = ("cell = (user spelling in {name, numeric string, int, absent}, group spelling in {name, numeric string, other group, "
         "absent}, initgroups on/off, worker class, bind tcp/unix, generation history initial -> kill -9 respawn -> HUP -> TTIN -> "
-        "USR2); distinct = cell tuple; every cell with a user or group is non-trivial")
+        "USR2 -> old master retired); directed histories: initgroups() refused with EPERM in the worker; configuration found as "
+        "./gunicorn.conf.py, reload introducing chdir, then USR2; distinct = cell tuple; every cell with a user or group is non-trivial")
 
 USERS = [("www-data", 33), ("33", 33), (33, 33), (None, None), ("nobody", 65534), ("54321", 54321), (54321, 54321)]   # 54321: no account
 GROUPS = [("nogroup", 65534), ("65534", 65534), ("www-data", 33), (None, None), (33, 33)]
@@ -58,7 +62,95 @@ def check_worker(run, e4, pid, want_uid, want_gid, initgroups, gen, v, master_gr
     return True
 
 
+def judge_app_ids(run, d, want_uid, want_gid, initgroups, both, v, label=""):
+    """ids recorded by application code itself (at import = the first application code of the worker, and in the request)."""
+    for when in ("import", "now"):
+        ru = d[when]["ruid"]
+        rg = d[when]["rgid"]
+        if any(x != want_uid for x in ru) or any(x != want_gid for x in rg):
+            v.append(("application-saw-wrong-ids/" + label + when, "application code of worker %s ran with resuid=%s resgid=%s (at %s), "
+                      "configured %d:%d" % (d[when].get("pid"), ru, rg, when, want_uid, want_gid)))
+            return False
+        if initgroups and both and want_uid != 0:
+            want = expected_groups(want_uid, want_gid)
+            if want is not None and sorted(d[when]["groups"]) != want:
+                v.append(("application-saw-wrong-groups/" + label + when, "application code of worker %s ran with supplementary groups %s "
+                          "(at %s), the account database gives %s for the configured user and group" % (
+                              d[when].get("pid"), sorted(d[when]["groups"]), when, want)))
+                return False
+            if want is not None:
+                run.count("application_group_checks")
+    return True
+
+
+REFUSED_INITGROUPS_HOOK = r'''
+def post_fork(server, worker):
+    _ev("post_fork", age=worker.age, wpid=worker.pid)
+    # a fault at one point of the privilege drop: this process is not allowed to change its supplementary groups (what a user
+    # namespace with setgroups=deny or a seccomp policy does to setgroups()); setgid() and setuid() are untouched
+    import errno as _errno
+    def _refused(user, group):
+        raise PermissionError(_errno.EPERM, "Operation not permitted (setgroups refused: injected by the harness)")
+    _os.initgroups = _refused
+'''
+
+
+def refused_initgroups_scenario(run, e4, sc):
+    """user + group + initgroups, and initgroups() fails with EPERM in every worker.  Whatever the server does about it (the
+    unchanged one: the worker exits before loading the application and the master gives up), no worker may get as far as running
+    application code with other supplementary groups than the configured user's."""
+    v = []
+    info = {}
+    if os.geteuid() != 0:
+        return v, "not running as root", info
+    user, uid = sc["user"]
+    group, gid = sc["group"]
+    settings = {"graceful_timeout": 3, "timeout": 3, "user": user, "group": group, "initgroups": True}
+    if sc["class"] == "gthread":
+        settings["threads"] = 2
+    srv = e4.Server("c20", worker_class=sc["class"], workers=2, settings=settings, bind=sc["bind"], conf_extra=REFUSED_INITGROUPS_HOOK)
+    try:
+        srv.start()
+        master = srv.master_pid
+        judged = set()
+        forked = set()
+        t0 = time.monotonic()
+        asked = False
+        while time.monotonic() - t0 < 8.0:
+            srv.reap()
+            evs = srv.events()
+            forked |= set(e["wpid"] for e in evs if e["kind"] == "post_fork")
+            inited = set(e["wpid"] for e in evs if e["kind"] == "post_worker_init")
+            for p in srv.worker_pids():
+                if p in inited and p not in judged:
+                    # this worker has loaded the application
+                    if check_worker(run, e4, p, uid, gid, True, "initgroups-refused", v, True):
+                        judged.add(p)
+            if judged and not asked:
+                asked = True
+                r = e4.request(srv.addr, "/ids", timeout=5)
+                if r["outcome"] == "ok":
+                    judge_app_ids(run, json.loads(e4.body_of(r["data"])[:-4]), uid, gid, True, True, v, "initgroups-refused-")
+            if not e4.alive(master) or (judged and asked):
+                break
+            time.sleep(0.05)
+        srv.reap()
+        st = srv.statuses.get(master)
+        info.update({"workers_forked": len(forked), "workers_that_loaded_the_application": len(judged),
+                     "master_alive": e4.alive(master), "master_exit_status": None if st is None else st[0] >> 8})
+        if not forked:
+            return v, "no worker was forked: %s" % (srv.stderr()[-300:] + srv.error_log()[-300:]), info
+        run.count("refused_initgroups_histories")
+        if not judged:
+            run.count("refused_initgroups_no_application_code_ran")
+        return v, None, info
+    finally:
+        srv.cleanup()
+
+
 def run_scenario(run, e4, sc):
+    if sc.get("kind") == "initgroups-refused":
+        return refused_initgroups_scenario(run, e4, sc)
     v = []
     info = {}
     if os.geteuid() != 0:
@@ -92,7 +184,9 @@ def run_scenario(run, e4, sc):
     sock_gid = want_gid         # the listening socket is created (and chowned) once, when the master starts
     srv = e4.Server("c20", worker_class=wc, workers=2, settings=settings, bind=sc["bind"],
                     env={"GUNICORN_CMD_ARGS": " ".join(opts)} if (source == "env" and opts) else None,
-                    argv_extra=opts if source == "cli" else None)
+                    argv_extra=opts if source == "cli" else None, default_conf=bool(sc.get("default_conf")))
+    if sc.get("default_conf"):
+        run.count("masters_started_on_the_discovered_default_conf")
     pidfile = os.path.join(srv.dir, "m.pid")
     srv.write_conf(pidfile=pidfile)
     try:
@@ -132,13 +226,7 @@ def run_scenario(run, e4, sc):
                 break
             d = json.loads(e4.body_of(r["data"])[:-4])
             app_pids.add(d["now"]["pid"])
-            for when in ("import", "now"):
-                ru = d[when]["ruid"]
-                rg = d[when]["rgid"]
-                if any(x != want_uid for x in ru) or any(x != want_gid for x in rg):
-                    v.append(("application-saw-wrong-ids/" + when, "application code ran with resuid=%s resgid=%s (at %s), "
-                              "configured %d:%d" % (ru, rg, when, want_uid, want_gid)))
-                    break
+            judge_app_ids(run, d, want_uid, want_gid, sc["initgroups"], both, v)
             run.count("application_id_checks")
         # generation: respawn after kill -9
         victim = w[0]
@@ -159,6 +247,13 @@ def run_scenario(run, e4, sc):
             srv.write_conf(group=new_group)
             want_gid = new_gid
             run.count("reloads_changing_the_group")
+        if sc.get("reload_chdir"):
+            # the reload introduces `chdir` (a deployment that moves from "the start directory" to an application directory):
+            # from now on the master's working directory is not the one it was started in
+            appdir = os.path.join(srv.dir, "appdir")
+            os.mkdir(appdir)
+            os.chmod(appdir, 0o755)
+            srv.write_conf(chdir=appdir)
         srv.signal(signal.SIGHUP)
         t0 = time.monotonic()
         while time.monotonic() - t0 < 15:
@@ -169,6 +264,14 @@ def run_scenario(run, e4, sc):
             time.sleep(0.05)
         srv.wait_workers(2, 10)
         check_all("reload")
+        if sc.get("reload_chdir"):
+            try:
+                info["master_cwd_after_reload"] = os.path.basename(os.readlink("/proc/%d/cwd" % master))
+            except OSError:
+                info["master_cwd_after_reload"] = None
+            if info["master_cwd_after_reload"] != "appdir":
+                return v, "the reload did not move the master into the new chdir: %s" % srv.error_log()[-300:], info
+            run.count("reloads_moving_the_working_directory")
         # generation: TTIN
         srv.signal(signal.SIGTTIN)
         srv.wait_workers(3, 10)
@@ -225,19 +328,30 @@ def run_scenario(run, e4, sc):
             info["workers_checked"] = len(seen)
             return v, None, info
         # generation: USR2
+        old_workers = set(srv.worker_pids())
         srv.signal(signal.SIGUSR2)
         new = None
+        silent = False
         t0 = time.monotonic()
-        old_workers = set(srv.worker_pids())
         while time.monotonic() - t0 < 15 and new is None:
             ready = set(e["pid"] for e in srv.events() if e["kind"] == "when_ready")
-            for p in srv.children_of(master):
-                if p in ready and p != master:
+            table = e4.proc_table()
+            for p in srv.children_of(master, table):
+                if p == master or p in old_workers:
+                    continue
+                if p in ready:
                     new = p
+                elif srv.children_of(p, table):
+                    # a child of the master that has children of its own is a master too (workers do not fork), although
+                    # it reported nothing through the configured server hooks (they are called before the first fork)
+                    new, silent = p, True
             time.sleep(0.05)
         if new is None:
             return v, "USR2 did not produce a new master: %s" % srv.error_log()[-300:], info
-        srv.wait_workers(3, 15, master=new)
+        if silent:
+            info["upgraded_master_runs_without_the_configured_hooks"] = True
+        else:
+            srv.wait_workers(3, 15, master=new)
         inited = set(e["wpid"] for e in srv.events() if e["kind"] == "post_worker_init")
         for p in srv.worker_pids(new):
             if p not in seen and p in inited:
@@ -261,7 +375,39 @@ def run_scenario(run, e4, sc):
         r = e4.request(srv.addr, "/pid", timeout=5)
         if r["outcome"] != "ok":
             v.append(("worker-unreachable-after-privilege-drop", "final probe -> %s" % r["outcome"]))
+        # the old master is retired: from now on only workers of the upgraded master answer, and each answer carries the ids
+        # that worker's application code saw when it was imported and sees now (a worker that answers has run application code,
+        # whether or not the server hooks reported it)
+        srv.signal(signal.SIGTERM, master)
+        if srv.wait_exit(master, 10) is None:
+            return v, "the old master did not stop within 10 s of TERM", info
+        answered = set()
+        misjudged = set()
+        for _ in range(6):
+            r = e4.request(srv.addr, "/ids", timeout=5)
+            if r["outcome"] != "ok":
+                if not v:
+                    return v, "upgraded side not reachable after the old master stopped: %s %s" % (r["outcome"], r.get("err")), info
+                break
+            d = json.loads(e4.body_of(r["data"])[:-4])
+            p = d["now"]["pid"]
+            if p not in srv.worker_pids(new):
+                continue            # a worker of the old master finishing (it was told to stop)
+            answered.add(p)
+            if p not in misjudged and not judge_app_ids(run, d, want_uid, want_gid, sc["initgroups"], both, v, "upgrade-"):
+                misjudged.add(p)
+            if p not in seen:
+                seen.add(p)
+                check_worker(run, e4, p, want_uid, want_gid, sc["initgroups"], "upgrade", v, both)
+            run.count("application_id_checks_after_upgrade")
+        ids = e4.proc_ids(new)
+        if ids and (ids["Uid"] != m_ids0["Uid"] or ids["Gid"] != m_ids0["Gid"]):
+            v.append(("master-identity-changed", "promoted master %d: Uid %s Gid %s, started as Uid %s Gid %s" % (
+                new, ids["Uid"], ids["Gid"], m_ids0["Uid"], m_ids0["Gid"])))
         info["workers_checked"] = len(seen)
+        info["upgraded_workers_that_answered"] = len(answered)
+        if sc.get("reload_chdir") and answered:
+            run.count("upgrades_after_the_working_directory_moved")
         return v, None, info
     finally:
         srv.cleanup()
@@ -297,6 +443,23 @@ def scenarios(tier, seed):
                 "bind": "tcp", "idx": n0 + 2, "source": "file", "bad_reload": True})
     out.append({"user": [54321, 54321], "group": ["nogroup", 65534], "initgroups": True, "class": classes[(seed + 3) % 4],
                 "bind": "unix", "idx": n0 + 3, "source": rng.choice(["file", "cli"])})
+    # the configuration (user, group) comes from ./gunicorn.conf.py found in the start directory (no -c); the reload introduces
+    # `chdir`, so the master that is upgraded afterwards no longer sits in the directory it was started in
+    u, g = rng.choice([(["www-data", 33], ["nogroup", 65534]), (["nobody", 65534], ["www-data", 33]), (["33", 33], ["65534", 65534])])
+    out.append({"user": u, "group": g, "initgroups": rng.random() < 0.5, "class": classes[(seed + 2) % 4],
+                "bind": rng.choice(["tcp", "unix"]), "idx": n0 + 4, "source": "file", "default_conf": True, "reload_chdir": True,
+                "heartbeat_watch": 0.5})
+    # initgroups() refused (EPERM) in every worker
+    u, g = rng.choice([(["www-data", 33], ["nogroup", 65534]), (["nobody", 65534], ["nogroup", 65534]), (["nobody", 65534], ["www-data", 33])])
+    out.append({"kind": "initgroups-refused", "user": u, "group": g, "initgroups": True, "class": classes[(seed + 1) % 4],
+                "bind": rng.choice(["tcp", "unix"]), "idx": n0 + 5, "source": "file"})
+    if tier != "quick":
+        for i, wc in enumerate(classes):
+            out.append({"kind": "initgroups-refused", "user": ["www-data", 33], "group": ["nogroup", 65534], "initgroups": True,
+                        "class": wc, "bind": "unix" if i % 2 else "tcp", "idx": n0 + 6 + i, "source": "file"})
+            out.append({"user": ["www-data", 33], "group": ["nogroup", 65534], "initgroups": bool(i % 2), "class": wc,
+                        "bind": "tcp" if i % 2 else "unix", "idx": n0 + 10 + i, "source": "file", "default_conf": True,
+                        "reload_chdir": True, "heartbeat_watch": 0.5})
     return out
 
 
@@ -309,7 +472,7 @@ def shard(sh):
         v, reason, info = run_scenario(run, e4, sc)
         if reason is None or v:
             break
-    run.case(json.dumps({k: sc.get(k) for k in ("user", "group", "initgroups", "class", "bind", "source")}, sort_keys=True),
+    run.case(json.dumps({k: sc.get(k) for k in ("user", "group", "initgroups", "class", "bind", "source", "kind", "default_conf")}, sort_keys=True),
              nontrivial=sc["user"][0] is not None or sc["group"][0] is not None)
     run.count("scenarios")
     run.count("class/" + sc["class"])
@@ -341,12 +504,15 @@ def main(tier, seed):
                 "generation/upgrade", "application_id_checks", "initgroups_group_checks", "heartbeat_checks",
                 "master_identity_checks", "unix_socket_owner_checks", "class/sync", "class/gthread", "class/gevent",
                 "class/eventlet", "source/file", "source/env", "source/cli", "reloads_changing_the_group", "refused_reload_histories",
-                "uid_without_account_checks")
+                "uid_without_account_checks", "application_group_checks", "application_id_checks_after_upgrade",
+                "masters_started_on_the_discovered_default_conf", "reloads_moving_the_working_directory",
+                "upgrades_after_the_working_directory_moved", "refused_initgroups_histories")
     shards = [{"scenario": sc, "seed": seed, "tier": tier} for sc in scenarios(tier, seed)]
     run.assumptions = [
         "without initgroups the supplementary groups are not judged (the statement specifies them only with initgroups)",
         "when only one of user/group is configured the other is the master's own effective id (the setting's default)",
         "needs real root and the accounts www-data(33), nobody(65534), group nogroup(65534)",
+        "a refused initgroups() is produced by a post_fork hook of the configuration file that replaces os.initgroups in the worker by a function raising PermissionError(EPERM); setgid()/setuid() are the real ones",
     ]
     common.run_sharded(run, shards, timeout=900 if tier == "quick" else 3600, nproc=min(12, common.NCPU))
     return run.finish()
